@@ -59,6 +59,31 @@ def generate(tier, rng):
         cfg = rng.choice(gens.cfgs(key=key))
         yield Script(cfg, boundary_script(rng, key, i % 2 == 1), "boundaries")
         yield Script(cfg, c09.history(rng, key, 60 if tier == "quick" else 150), "mixed-history")
+    key = (7, 11)
+    fr, sport = [], 10000
+    for v6 in (False, True):
+        s, d = gens.addr_pair(v6)
+        for fl in range(512):                 # every flag word: on a fresh flow and on a validated one, acknowledging the cookie
+            sport += 1
+            ck = net.cookie(key, s, d, sport, 443)
+            if fl % 2 == 0:
+                fr += gens.handshake(key, s, d, sport, 443, [b"x"])
+            fr.append(net.frame_tcp(s, d, sport, 443, 50, (ck + 1) & 0xFFFFFFFF, fl, b"" if (fl + (1 if v6 else 0)) % 2 else b"GET / HTTP/1.0\r\n\r\n"))
+    yield Script(Cfg(key=key), fr, "all-flag-words")
+    fr = []
+    for v6 in (False, True):
+        s, d = gens.addr_pair(v6)
+        for i, f in enumerate((lambda c: c ^ 0x00010001, lambda c: c ^ 0x80008000, lambda c: c ^ 0xffffffff, lambda c: c + 0x10000,
+                               lambda c: c - 0x10000, lambda c: c ^ 0x0000ffff, lambda c: c ^ 0xffff0000, lambda c: c ^ 1,
+                               lambda c: c ^ 0x80000000, lambda c: int.from_bytes(c.to_bytes(4, "big"), "little"),
+                               lambda c: ((c << 16) | (c >> 16)), lambda c: c ^ 0x01010101, lambda c: c ^ 0x12341234)):
+            for rep in (1, 2):                # once, and twice in a row on the same flow
+                sport += 1
+                ck = net.cookie(key, s, d, sport, 443)
+                for _ in range(rep):
+                    fr.append(net.frame_tcp(s, d, sport, 443, 50, (f(ck) + 1) & 0xFFFFFFFF, 0x18, b"GET / HTTP/1.0\r\n\r\n"))
+                fr.append(net.frame_tcp(s, d, sport, 443, 50, (ck + 1) & 0xFFFFFFFF, 0x18, b"GET / HTTP/1.0\r\n\r\n"))
+    yield Script(Cfg(key=key), fr, "structured-wrong-acks")
     for key in ((0, 0), (0x0123456789abcdef, 0xfedcba9876543210)):
         for cfg in gens.cfgs(key=key)[:2]:
             yield Script(cfg, gens.control_on_established(rng, key), "control-on-established")
